@@ -34,16 +34,16 @@ Init == /\ stack = << Frame(1, 0, 1, 0) >>
 Top == stack[Len(stack)]
 Pop == SubSeq(stack, 1, Len(stack) - 1)
 
-Accept ==
+\* The stack operations without the verdict guard (AcceptV, SplitV): used as they are by the trace
+\* specification Trace_Simpson, where the verdict is computed from the recorded function values.
+AcceptV ==
   /\ stat = "run" /\ Len(stack) > 0
-  /\ Panel(Top.lvl, Top.idx) \notin split
   /\ accepted' = accepted \cup {Panel(Top.lvl, Top.idx)}
   /\ stack' = Pop /\ evals' = evals + 2
   /\ UNCHANGED <<stat, split>>
 
-Split ==
+SplitV ==
   /\ stat = "run" /\ Len(stack) > 0
-  /\ Panel(Top.lvl, Top.idx) \in split
   /\ evals' = evals + 2
   /\ IF Top.lvl >= MaxLevel
        THEN stat' = "err" /\ UNCHANGED <<stack, accepted>>
@@ -53,6 +53,9 @@ Split ==
                         ELSE Frame(l, 2 * Top.idx, l, 2 * Top.idx)
             IN stack' = Pop \o <<right, left>> /\ UNCHANGED <<stat, accepted>>
   /\ UNCHANGED split
+
+Accept == stat = "run" /\ Len(stack) > 0 /\ Panel(Top.lvl, Top.idx) \notin split /\ AcceptV
+Split == stat = "run" /\ Len(stack) > 0 /\ Panel(Top.lvl, Top.idx) \in split /\ SplitV
 
 Finish == stat = "run" /\ Len(stack) = 0 /\ stat' = "ok" /\ UNCHANGED <<stack, accepted, evals, split>>
 Next == Accept \/ Split \/ Finish
